@@ -155,7 +155,10 @@ func (d *v36Driver) run(root string, scens []v36Scen, inject []string) ([]v36Cal
 		return nil, err
 	}
 	logf := filepath.Join(dir, "strace.log")
-	args := []string{"-f", "-y", "-qq", "-s", "0", "--seccomp-bpf", "-e", "signal=none", "-e", "trace=%file,%desc"}
+	args := []string{"-f", "-y", "-qq", "-s", "0", "-e", "signal=none", "-e", "trace=%file,%desc"}
+	if !strings.Contains(strings.Join(inject, " "), "signal=") {
+		args = append(args, "--seccomp-bpf") // faster; signal injection does not work with it
+	}
 	for _, in := range inject {
 		args = append(args, "-e", "inject="+in)
 	}
@@ -165,7 +168,9 @@ func (d *v36Driver) run(root string, scens []v36Scen, inject []string) ([]v36Cal
 	cmd := exec.CommandContext(ctx, "strace", args...)
 	cmd.Dir = "/"
 	cmd.Env = append(os.Environ(), "VERIF_C36_CHILD="+bf, "GODEBUG=asyncpreemptoff=1")
+	t0 := time.Now()
 	out, err := cmd.CombinedOutput()
+	d.res.Count("child_ms", int(time.Since(t0).Milliseconds()))
 	if ctx.Err() != nil {
 		return nil, fmt.Errorf("strace child timed out: %s", out)
 	}
@@ -512,6 +517,7 @@ type v36Target struct {
 	name string
 	when int
 	desc string
+	good bool // inside a save of non-empty content that succeeds when left alone
 }
 
 func (d *v36Driver) targets(root string, scens []v36Scen, calls []v36Call, forKill bool) []v36Target {
@@ -522,15 +528,29 @@ func (d *v36Driver) targets(root string, scens []v36Scen, calls []v36Call, forKi
 	tr := &v36Translator{root: root}
 	counts := map[string]int{}
 	inScen := false
+	okSave := map[int]bool{}
+	size := map[int]int{}
+	for _, s := range scens {
+		size[s.ID] = s.Size
+	}
+	for _, c := range calls {
+		if kind, id, info, ok := v36Marker(c); ok && kind == "end" {
+			okSave[id] = info == "ok" && size[id] > 0
+		}
+	}
+	good := false
 	var out []v36Target
 	for _, c := range calls {
 		if c.Tid == mainTid {
 			counts[c.Name]++
 		}
-		if kind, _, _, ok := v36Marker(c); ok {
+		if kind, id, _, ok := v36Marker(c); ok {
 			inScen = kind == "begin"
+			if inScen {
+				good = okSave[id]
+			}
 			if kind == "end" && forKill && c.Tid == mainTid {
-				out = append(out, v36Target{name: c.Name, when: counts[c.Name], desc: "end-of-save"})
+				out = append(out, v36Target{name: c.Name, when: counts[c.Name], desc: "end-of-save", good: good})
 			}
 			continue
 		}
@@ -540,19 +560,64 @@ func (d *v36Driver) targets(root string, scens []v36Scen, calls []v36Call, forKi
 		if c.Tid != mainTid {
 			return nil // the save did not run on the main thread: per-thread counters would not match
 		}
+		desc := c.Name
+		switch c.Name {
+		case "openat", "fsync", "close":
+			// the same call on the temporary file and on the directory are different steps of the save
+			desc += "-file"
+			_, ap, _ := v36Fd(c.Args[0])
+			if c.Name == "openat" && len(c.Args) > 1 {
+				ap, _ = v36Str(c.Args[1])
+			}
+			if fi, err := os.Stat(ap); err == nil && fi.IsDir() {
+				desc = c.Name + "-dir"
+			}
+		}
 		if forKill {
 			if op, ok := tr.translate(c); ok && op.Op != "nop" {
-				out = append(out, v36Target{name: c.Name, when: counts[c.Name], desc: c.Name})
+				out = append(out, v36Target{name: c.Name, when: counts[c.Name], desc: desc, good: good})
 			}
 			continue
 		}
 		for _, f := range v36Faults {
 			if f.call == c.Name {
-				out = append(out, v36Target{name: c.Name, when: counts[c.Name], desc: c.Name})
+				out = append(out, v36Target{name: c.Name, when: counts[c.Name], desc: desc, good: good})
 			}
 		}
 	}
 	return out
+}
+
+// v36PickTarget rotates over the classes of targets (so that every step of the save is hit within a few
+// batches) and picks a random member of the chosen class.
+func v36PickTarget(ts []v36Target, turn int, rng *rand.Rand) v36Target {
+	classes := []string{}
+	by := map[string][]v36Target{}
+	for _, t := range ts {
+		if _, ok := by[t.desc]; !ok {
+			classes = append(classes, t.desc)
+		}
+		by[t.desc] = append(by[t.desc], t)
+	}
+	sort.Strings(classes)
+	all := []string{"fsync-file", "openat-file", "write", "renameat", "fsync-dir", "close-file", "fallocate", "fsync-file", "openat-dir",
+		"fchmodat", "write", "close-dir", "mkdirat", "unlinkat", "end-of-save"}
+	for i := 0; i < len(all); i++ {
+		if m := by[all[(turn+i)%len(all)]]; len(m) > 0 {
+			var pref []v36Target
+			for _, t := range m {
+				if t.good {
+					pref = append(pref, t)
+				}
+			}
+			if len(pref) > 0 && rng.Intn(8) > 0 {
+				m = pref
+			}
+			return m[rng.Intn(len(m))]
+		}
+	}
+	c := by[classes[turn%len(classes)]]
+	return c[rng.Intn(len(c))]
 }
 
 func v36ErrnosFor(call string) []string {
@@ -565,7 +630,8 @@ func v36ErrnosFor(call string) []string {
 }
 
 // batch runs one group of scenarios: reference run, fault-injection runs, kill runs.
-func (d *v36Driver) batch(scens []v36Scen, rng *rand.Rand, nInject, nKill int) {
+func (d *v36Driver) batch(bi int, scens []v36Scen, rng *rand.Rand, nInject, nKill int) {
+	turn := bi + int(kit.Seed())*5
 	root, sc, err := d.prepare(scens)
 	if err != nil {
 		d.res.Problem("prepare: %v", err)
@@ -581,7 +647,7 @@ func (d *v36Driver) batch(scens []v36Scen, rng *rand.Rand, nInject, nKill int) {
 
 	ft := d.targets(root, sc, calls, false)
 	for i := 0; i < nInject && len(ft) > 0; i++ {
-		tg := ft[rng.Intn(len(ft))]
+		tg := v36PickTarget(ft, turn*nInject+i, rng)
 		en := v36ErrnosFor(tg.name)
 		in := fmt.Sprintf("%s:error=%s:when=%d", tg.name, en[rng.Intn(len(en))], tg.when)
 		root2, sc2, err := d.prepare(scens)
@@ -603,7 +669,7 @@ func (d *v36Driver) batch(scens []v36Scen, rng *rand.Rand, nInject, nKill int) {
 		if !hit {
 			d.res.Count("inject_missed", 1)
 		} else {
-			d.res.Count("inject_hit_"+tg.name, 1)
+			d.res.Count("inject_hit_"+tg.desc, 1)
 		}
 		d.add(d.process(root2, sc2, calls2, in))
 		d.res.Count("child_runs", 1)
@@ -611,7 +677,7 @@ func (d *v36Driver) batch(scens []v36Scen, rng *rand.Rand, nInject, nKill int) {
 
 	kt := d.targets(root, sc, calls, true)
 	for i := 0; i < nKill && len(kt) > 0; i++ {
-		tg := kt[rng.Intn(len(kt))]
+		tg := v36PickTarget(kt, turn*nKill+i+3, rng)
 		in := fmt.Sprintf("%s:signal=SIGKILL:when=%d", tg.name, tg.when)
 		root2, sc2, err := d.prepare(scens)
 		if err != nil {
@@ -671,11 +737,21 @@ func TestVerif_C36(t *testing.T) {
 	rng := kit.Rand(36)
 	all := v36AllScens(rng, kit.Thorough())
 	rng.Shuffle(len(all), func(i, j int) { all[i], all[j] = all[j], all[i] })
-	// config scenarios share one name: at most one per batch
-	nScen := kit.Pick(44, 640)
-	if nScen > len(all) {
-		nScen = len(all)
+	if !kit.Thorough() {
+		// quick tier: a seeded, stratified sample of the table
+		quota := map[string]int{"plain": 13, "pre": 5, "nodir": 4, "short-1": 3, "short": 4, "errmid": 4, "long+1": 4, "long": 3}
+		var pick []v36Scen
+		for _, s := range all {
+			c := v36Class(s)
+			if quota[c] > 0 {
+				quota[c]--
+				pick = append(pick, s)
+			}
+		}
+		all = pick
 	}
+	// config scenarios share one name: at most one per batch
+	nScen := len(all)
 	res.Count("scenario_table_size", len(all))
 	const perBatch = 4
 	var batches [][]v36Scen
@@ -727,7 +803,7 @@ func TestVerif_C36(t *testing.T) {
 		go func() {
 			defer wg.Done()
 			for bi := range ch {
-				d.batch(batches[bi], kit.Rand(int64(3600+bi)), nInject, nKill)
+				d.batch(bi, batches[bi], kit.Rand(int64(3600+bi)), nInject, nKill)
 			}
 		}()
 	}
@@ -746,6 +822,30 @@ func TestVerif_C36(t *testing.T) {
 		}
 	}
 	res.Count("batches", len(batches))
+}
+
+func v36Class(s v36Scen) string {
+	switch s.Reader {
+	case "short":
+		if s.Deliver == s.Size-1 {
+			return "short-1"
+		}
+		return "short"
+	case "long":
+		if s.Deliver == s.Size+1 {
+			return "long+1"
+		}
+		return "long"
+	case "errmid":
+		return "errmid"
+	}
+	if s.NoDir {
+		return "nodir"
+	}
+	if s.Pre != "none" {
+		return "pre"
+	}
+	return "plain"
 }
 
 func v36Whats(ops []v36Op) []string {
